@@ -73,7 +73,33 @@ def run_solve(spec, plan=None, keep=False):
         with warnings.catch_warnings():
             warnings.simplefilter("ignore")
             staged = plan.get("staged")
-            if staged:
+            if plan.get("interleaved"):
+                # another (multi-objective) problem is built first and SOLVED while the problem under test is half
+                # declared: its tasks and resources exist, its constraints, indicators and objectives come afterwards
+                other = ps.SchedulingProblem(name="Interleaved_other")
+                o1 = ps.FixedDurationTask(name="io1", duration=3)
+                o2 = ps.FixedDurationTask(name="io2", duration=2)
+                ow = ps.Worker(name="iow")
+                o1.add_required_resource(ow)
+                o2.add_required_resource(ow)
+                ps.ObjectiveMinimizeMakespan()
+                ps.ObjectiveMinimizeFlowtime()
+                b = bld.build(dict(spec, constraints=[], indicators=[], objectives=[]))
+                b.spec = spec
+                ps.SchedulingSolver(problem=other, max_time=30, **plan["interleaved"]).solve()
+                cons = spec.get("constraints", [])
+                late = [c for c in cons if c["kind"] in ("IndicatorTarget", "IndicatorBounds")]
+                for c in cons:
+                    if c not in late:
+                        bld.mk_constraint(b, c)
+                for i in spec.get("indicators", []):
+                    bld.mk_indicator(b, i)
+                for c in late:
+                    bld.mk_constraint(b, c)
+                for o in spec.get("objectives", []):
+                    bld.mk_objective(b, o)
+                ins.reset_case()
+            elif staged:
                 # the problem is declared in two stages with a complete solve in between: the first `first`
                 # objectives, a warm-up solver run to the end, then the remaining objectives
                 b = bld.build(dict(spec, objectives=spec["objectives"][:staged["first"]]))
